@@ -24,7 +24,7 @@ def findall(current_node: typing.Union[dict, list], seeked_xpath_str: str, raise
                                                     .split('/')
                         if itm
     ]
-    return _findall(current_node, seeked_xpath_list)
+    return _findall(current_node, seeked_xpath_list, raise_exception=raise_exception)
 # ******************************************************************************
 def findfirst(current_node: typing.Union[dict, list], seeked_xpath_str: str, raise_exception = True) -> tuple:
     found = findall(current_node, seeked_xpath_str, False)
